@@ -319,6 +319,7 @@ func init() {
 					}
 				}
 			}
+			specs = d.WithRuntimeVariants(specs, int(d.Pick(4, 2)), nil)
 			outs := d.RunWorkers(specs, 8)
 			d.raceVerdict(outs)
 		},
